@@ -123,3 +123,9 @@ claim('C03', 'row-by-row soundness of the comparison-atom arms of is_super_pred_
       'quantifies over the super side and the Or arm over the sub side.',
       'reduce_preds, Not, General* predicates and the interplay with unification are not decided (e.g. `not (I <= 5)` refinements are accepted for any argument today: outside these rules).',
       'DESIGN.md §3 C03')
+
+claim('C32', 'table rule over the resolved arms of Predicate::invert / and / or under the three-orderings model',
+      'Decides the comparison-atom rows of invert (each must denote the complement) and the TRUE/FALSE rows and the Equal-or-GreaterEqual short-cut of and/or, exhaustively for those rows '
+      '(2 known findings: General<=/>= are inverted to each other).',
+      'Nested predicate trees, Or-sets and absorption are not decided.',
+      'DESIGN.md §3 C32')
